@@ -1196,6 +1196,27 @@ class Facts:
                 out |= self.callback_targets(t)
             # closures passed as arguments to external higher-order functions are invoked there
             # (handled by closure_args below).
+        # functions handed over by name (`.map_err(ScnrError::from)`, `.map(Self::helper)`, `let f = helper;`) are called by
+        # whoever receives them: considered callable here
+        def fn_items(o):
+            if isinstance(o, dict):
+                if o.get("k") == "const" and o.get("fn_resolved"):
+                    yield o
+                for v in o.values():
+                    if isinstance(v, (dict, list)):
+                        yield from fn_items(v)
+            elif isinstance(o, list):
+                for v in o:
+                    yield from fn_items(v)
+        for bb2 in (fn.reachable() if blocks is None else blocks):
+            t2 = fn.term(bb2)
+            srcs = [t2.get("args", [])] if t2.get("k") == "call" else []
+            srcs += [st_.get("rv") for st_ in fn.blocks[bb2]["stmts"] if st_.get("k") == "assign"]
+            for c_ in fn_items(srcs):
+                if c_["fn_resolved"] in self.fns:
+                    out.add(c_["fn_resolved"])
+                elif c_.get("fn") in self.fns:
+                    out.add(c_["fn"])
         # closures created in this function and handed to anything are considered callable here
         for bb2, i, s in fn.assigns():
             if blocks is not None and bb2 not in blocks:
